@@ -96,6 +96,8 @@ func (f *Fam) c09Grid(after Op) {
 			{"post-body-only", Auth{Mode: "post", ID: "I", Secret: "secret-I"}, "", false},
 			{"bearer-same-token", Auth{Mode: "omit"}, t.Val, false},
 			{"bearer-garbage", Auth{Mode: "omit"}, "ory_at_garbage.garbage", false},
+			{"bearer-same-token-without-prefix", Auth{Mode: "omit"}, strings.TrimPrefix(t.Val, "ory_at_"), false},
+			{"bearer-same-token-other-base64-spelling", Auth{Mode: "omit"}, c09AltSpelling(t.Val), false},
 		}
 		if liveAT != nil && liveAT != t {
 			callers = append(callers, caller{"bearer-other-live-at", Auth{Mode: "omit"}, liveAT.Val, true})
@@ -186,4 +188,14 @@ func tokenMutants(tok string, all []*MTok) []string {
 		}
 	}
 	return out
+}
+
+// c09AltSpelling: another string that decodes to the same token (a line break inside the random part, which the
+// lenient base64 decoder of the HMAC strategy ignores); the token itself for JWTs.
+func c09AltSpelling(tok string) string {
+	pfx, key, sig := c06Split2(tok)
+	if key == "" || sig == "" || strings.Count(tok, ".") != 1 || len(key) < 8 {
+		return tok
+	}
+	return pfx + key[:4] + "\n" + key[4:] + "." + sig
 }
